@@ -95,6 +95,14 @@ class RunIO(shellio.FragIO):
         def pre():
             os.setsid()
             fcntl.ioctl(0, termios.TIOCSCTTY, 0)
+            # a check started from a background job of a non-interactive shell (nohup … &, a CI runner) inherits
+            # SIGINT / SIGQUIT as IGNORED, and a shell hands dispositions that were ignored on its entry on to
+            # every command it starts: ^C would then not end the remote command.  The remote side of this check is
+            # a terminal session as a user has it: default dispositions.
+            import signal
+            for sig in (signal.SIGINT, signal.SIGQUIT, signal.SIGTSTP, signal.SIGTTIN, signal.SIGTTOU, signal.SIGHUP,
+                        signal.SIGTERM, signal.SIGPIPE):
+                signal.signal(sig, signal.SIG_DFL)
 
         self.p = subprocess.Popen(argv, stdin=self.slave, stdout=self.slave, stderr=self.slave,
                                   preexec_fn=pre, env=env)
